@@ -308,7 +308,7 @@ theorem invT_wkStep {s s' : St} {i : Nat} (hB : InvB s) (h : InvT s) (hs : s' âˆ
       simp only [hpc] at hs
       have hb := invT_setObj_norun (i := i) (w' := { s.objs i with pc := .cl }) h (by simp [hpc]) (by simp)
       split at hs
-      Â· simp only [List.mem_singleton] at hs; subst hs; exact hb
+      Â· simp only [List.mem_singleton] at hs; subst hs; exact invT_congr hb rfl rfl rfl rfl rfl
       Â· simp only [List.mem_singleton] at hs; subst hs; exact invT_congr hb rfl rfl rfl rfl rfl
     | cl =>
       simp only [hpc, List.mem_singleton] at hs
@@ -320,7 +320,7 @@ theorem invT_wkStep {s s' : St} {i : Nat} (hB : InvB s) (h : InvT s) (hs : s' âˆ
 
 def spawnSt (s : St) (i : Nat) : St :=
   { setObj s i { s.objs i with pc := .run } with
-    wgc := fun o => if o = (s.objs i).order then s.wgc o + 1 else s.wgc o }
+    wgc := fun o => if o = (s.objs i).order then s.wgc o + 1 else s.wgc o, rw := s.rw + 1 }
 
 theorem spawn1_reg {s : St} {i : Nat} (h : (s.objs i).pc = .reg) :
     spawn1 s i = emit (.start i (s.objs i).name (s.objs i).order) (spawnSt s i) := by
